@@ -8,7 +8,7 @@ Line protocol of the file-system model (C09 C10):
 
 query:  calls            → the call list of the fault-free run
         kill <k>         → state after the first k calls
-        fault <i> <f> <kept> → i-th call (0-based) fails with f ∈ ENOSPC EIO EACCES short;
+        fault <i> <f> <kept> → i-th call (0-based) fails with f ∈ ENOSPC EIO EACCES EINTR short;
                           kept = bytes stdio had flushed itself before a failing fclose
 script: init ; … ; free ; fini as for drv_rt (single thread).  `order` is the
 readdir order, one character per entry ('.' ':' 'o' 'j').  The JSON texts are
@@ -87,6 +87,8 @@ def parseFault : String → Option Fault
   | "ENOSPC" => some .enospc
   | "EIO" => some .eio
   | "EACCES" => some .eacces
+  -- the runtime has no errno-specific handling: an interrupted call is an error like any other
+  | "EINTR" => some .eio
   | "short" => some .short
   | _ => none
 
